@@ -140,3 +140,147 @@ theorem nodupKeys_filter (d : Dict κ α) (p : κ × α → Bool) (hn : NodupKey
 
 end PyDict
 end Wz
+
+namespace Wz
+namespace MDLemmas
+open PyDict MD MDSpec
+variable {κ ν : Type} [DecidableEq κ]
+
+theorem wf_nodup {m : MultiMap κ ν} (h : WF m) : NodupKeys m := h.1
+
+theorem hasKey_eq (m : MultiMap κ ν) (k : κ) : hasKey m k = has m k := by
+  have h1 := has_iff m k
+  unfold hasKey
+  by_cases h : k ∈ keys m
+  · have : has m k = true := h1.2 h
+    simp only [keys] at h
+    simp [this, h]
+  · have : has m k = false := by
+      cases hh : has m k with
+      | false => rfl
+      | true => exact absurd (h1.1 hh) h
+    simp only [keys] at h
+    simp [this, h]
+
+theorem filter_key_of_not_mem (m : MultiMap κ ν) (k : κ) (h : k ∉ keys m) :
+    m.filter (fun e => e.1 == k) = [] := by
+  rw [List.filter_eq_nil_iff]
+  intro e he
+  simp only [beq_iff_eq]
+  intro heq
+  apply h
+  rw [← heq]
+  exact List.mem_map_of_mem (f := fun x => x.1) he
+
+theorem valuesOf_eq (m : MultiMap κ ν) (hn : NodupKeys m) (k : κ) :
+    valuesOf m k = (m.lookup k).getD [] := by
+  induction m with
+  | nil => simp [valuesOf]
+  | cons e t ih =>
+    obtain ⟨k', vs⟩ := e
+    simp only [NodupKeys, List.map_cons, List.nodup_cons] at hn
+    by_cases h : k' = k
+    · subst h
+      have hf := filter_key_of_not_mem t k' (by simpa [keys] using hn.1)
+      simp [valuesOf, List.filter_cons, hf, List.lookup]
+    · have hb : (k == k') = false := by simp [Ne.symm h]
+      have ih' := ih hn.2
+      simp only [valuesOf] at ih'
+      simp [valuesOf, List.filter_cons, h, List.lookup, hb, ih']
+
+theorem remove_eq_erase (m : MultiMap κ ν) (hn : NodupKeys m) (k : κ) : remove m k = erase m k :=
+  (erase_eq_filter m k hn).symm
+
+theorem put_eq_set (m : MultiMap κ ν) (hn : NodupKeys m) (k : κ) (vs : List ν) : put m k vs = PyDict.set m k vs := by
+  unfold put
+  rw [hasKey_eq]
+  by_cases h : has m k = true
+  · simp only [h, if_true]
+    exact (set_of_mem m k vs hn ((has_iff m k).1 h)).symm
+  · simp only [h]
+    have : k ∉ keys m := fun hm => h ((has_iff m k).2 hm)
+    exact (set_of_not_mem m k vs this).symm
+
+theorem add_eq (m : MultiMap κ ν) (hn : NodupKeys m) (k : κ) (v : ν) : MDSpec.add m k v = MD.add m k v := by
+  unfold MDSpec.add MD.add get?
+  rw [put_eq_set m hn, valuesOf_eq m hn]
+  cases m.lookup k <;> simp
+
+theorem nodup_add (m : MultiMap κ ν) (hn : NodupKeys m) (k : κ) (v : ν) : NodupKeys (MD.add m k v) := by
+  unfold MD.add
+  split <;> exact nodupKeys_set _ _ _ hn
+
+theorem addAll_eq (m : MultiMap κ ν) (hn : NodupKeys m) (l : List (κ × ν)) :
+    MDSpec.addAll m l = MD.addAll m l := by
+  induction l generalizing m with
+  | nil => rfl
+  | cons p t ih =>
+    obtain ⟨k, v⟩ := p
+    simp only [MDSpec.addAll, MD.addAll]
+    rw [add_eq m hn]
+    exact ih _ (nodup_add m hn k v)
+
+/-! well-formedness is preserved by the primitives -/
+
+theorem mem_set {m : MultiMap κ ν} {k : κ} {vs : List ν} {e : κ × List ν} (h : e ∈ PyDict.set m k vs) :
+    e ∈ m ∨ e.2 = vs := by
+  induction m with
+  | nil => simp [PyDict.set] at h; right; rw [h]
+  | cons e' t ih =>
+    obtain ⟨k', y⟩ := e'
+    by_cases h1 : k' = k
+    · simp only [PyDict.set, h1, if_true, List.mem_cons] at h
+      rcases h with h | h
+      · right; rw [h]
+      · left; exact List.mem_cons_of_mem _ h
+    · simp only [PyDict.set, h1, if_false, List.mem_cons] at h
+      rcases h with h | h
+      · left; rw [h]; exact List.mem_cons_self
+      · rcases ih h with h | h
+        · left; exact List.mem_cons_of_mem _ h
+        · right; exact h
+
+theorem wf_set {m : MultiMap κ ν} (h : WF m) (k : κ) {vs : List ν} (hv : vs ≠ []) : WF (PyDict.set m k vs) := by
+  refine ⟨nodupKeys_set m k vs h.1, ?_⟩
+  intro e he
+  rcases mem_set he with h1 | h1
+  · exact h.2 e h1
+  · rw [h1]; exact hv
+
+theorem wf_filter {m : MultiMap κ ν} (h : WF m) (p : κ × List ν → Bool) : WF (m.filter p) :=
+  ⟨nodupKeys_filter m p h.1, fun e he => h.2 e (List.mem_filter.1 he).1⟩
+
+theorem wf_erase {m : MultiMap κ ν} (h : WF m) (k : κ) : WF (erase m k) := by
+  rw [erase_eq_filter m k h.1]; exact wf_filter h _
+
+theorem wf_dropLast {m : MultiMap κ ν} (h : WF m) : WF m.dropLast := by
+  refine ⟨?_, fun e he => h.2 e (List.dropLast_subset m he)⟩
+  have : (m.dropLast).map (·.1) = (m.map (·.1)).dropLast := by simp [List.map_dropLast]
+  rw [this]
+  exact List.Nodup.sublist (List.dropLast_sublist _) h.1
+
+theorem wf_add {m : MultiMap κ ν} (h : WF m) (k : κ) (v : ν) : WF (MD.add m k v) := by
+  unfold MD.add
+  split <;> exact wf_set h k (by simp)
+
+theorem wf_addAll {m : MultiMap κ ν} (h : WF m) (l : List (κ × ν)) : WF (MD.addAll m l) := by
+  induction l generalizing m with
+  | nil => exact h
+  | cons p t ih => obtain ⟨k, v⟩ := p; exact ih (wf_add h k v)
+
+theorem lookup_ne_nil {m : MultiMap κ ν} (h : WF m) {k : κ} {vs : List ν} (hl : m.lookup k = some vs) : vs ≠ [] := by
+  have : (k, vs) ∈ m := by
+    induction m with
+    | nil => simp [List.lookup] at hl
+    | cons e t ih =>
+      obtain ⟨k', y⟩ := e
+      by_cases hk : k = k'
+      · subst hk; simp [List.lookup] at hl; subst hl; exact List.mem_cons_self
+      · have hb : (k == k') = false := by simp [hk]
+        simp only [List.lookup, hb] at hl
+        have hwf : WF t := ⟨(List.nodup_cons.1 h.1).2, fun e he => h.2 e (List.mem_cons_of_mem _ he)⟩
+        exact List.mem_cons_of_mem _ (ih hwf hl)
+  exact h.2 _ this
+
+end MDLemmas
+end Wz
